@@ -125,9 +125,12 @@ def build_instances(ctx):
     # thorough: exhaustive 2^32 for a rotating subset of 32-bit instances
     if not quick:
         c32 = [i for i in out if reps.BITS.get(i["rep"]) == 32]
+        # each exhaustive 2^32 sweep costs ~10-15 minutes under ASan+UBSan: one per shard, rotating with the seed
+        picked = 0
         for j, i in enumerate(c32):
-            if (j + ctx.seed) % max(1, len(c32) // 40) == 0:
+            if (j + ctx.seed) % max(1, len(c32) // core.NCPU) == 0 and picked < core.NCPU:
                 i["all32"] = True
+                picked += 1
     # floating instances
     for rep in reps.FLOAT_REPS:
         for n, d in FLOAT_FACTORS:
@@ -150,7 +153,14 @@ def run(ctx, which):
     shards[0] = canaries + shards[0]
     vr = ValueRun(ctx, rc_cases=(10000 if ctx.quick() else 100000),
                   extra_args=(["--thorough"] if not ctx.quick() else []))
-    vr.run([("s%02d" % k, emit(s), [i["id"] for i in s]) for k, s in enumerate(shards) if s])
+    if not ctx.quick():
+        # spread the exhaustive sweeps: one per shard
+        heavy = [i for i in insts if i.get("all32")]
+        for s in shards:
+            s[:] = [i for i in s if not i.get("all32")]
+        for k, i in enumerate(heavy):
+            shards[k % nsh].append(i)
+    vr.run([("s%02d" % k, emit(s), [i["id"] for i in s]) for k, s in enumerate(shards) if s], timeout=4 * 3600)
     by_id = {i["id"]: i for i in insts + canaries}
     # --- compile errors: a conversion the model says compiles must compile
     for s, cr in vr.compile_errors:
